@@ -102,6 +102,11 @@ def gen_cases(rng, tier):
             cases.append(["e%d" % k, "c15", kind, g]); k += 1
     cases.append(["e%d" % k, "c15", "outm", "frame;drop;adv:10;select;adv:100;drop;adv:32001"]); k += 1
     cases.append(["e%d" % k, "c15", "outm", "clone,frame;drop,drop;adv:31999;frame;adv:31999;adv:2"]); k += 1
+    # a framing error of the other kind: a head that grows past 4096 bytes inside one unterminated line - the connection is closed and
+    # unregistered at once (while handles are alive, too) and never selected again
+    for g in ("bighead;adv:5;select", "clone,bighead;adv:100;select;drop", "frame,bighead;adv:10", "drop;adv:5;bighead;adv:10;select", "frame;bighead;adv:1;other;adv:5;select"):
+        cases.append(["e%d" % k, "c15", "out", g]); k += 1
+    cases.append(["e%d" % k, "c15", "in", "bighead;adv:10"]); k += 1
     # an outgoing connection whose stream reports another peer address than the one that was dialled (connect through the unspecified
     # address, a tunnelling factory): messages are delivered, it is closed 32 s after the last use like any other
     for g in ("frame;drop;adv:31999;adv:2", "drop;frame;adv:31999;adv:2;adv:31999", "drop;adv:32001", "clone,frame;drop,drop;adv:10;frame;adv:31999;adv:2", "frame,close", "drop;adv:100;close"):
@@ -124,7 +129,7 @@ def model_case(case, impl):
     rem = None      # microseconds until a gated message becomes readable: the model sees it as a message at that millisecond
     for g in case[3].split(";"):
         evs = []
-        for e in [e for e in g.split(",") if e and e != "other"]:
+        for e in [("garbage" if e == "bighead" else e) for e in g.split(",") if e and e != "other"]:
             if e.startswith("gate:"):
                 rem = int(e[5:])
             elif e == "frame" and rem is not None:
@@ -192,7 +197,7 @@ def oracle(case, impl):
                     idle_since = now
             elif e == "close":
                 closed = True
-            elif e == "garbage":
+            elif e in ("garbage", "bighead"):
                 garbage = True
             elif e.startswith("adv:"):
                 now += int(e[4:])
